@@ -344,6 +344,56 @@ def check_scalar_dunders(repo: Repo, rep: Report, world: Optional[EM.ExprWorld] 
                   list(_int_vals(order, ["s", "o"])), lambda v, f=f: f(v["s"], v["o"]))
             judge(q, "(leaf, 1)", lambda q=q, s=s: world.call(mod, q, 1, self_obj=s),
                   list(_int_vals(order, ["s"])), lambda v, f=f: f(v["s"], 1))
+    # compound receivers and operands, built with the library's own operators: a dunder that looks inside its receiver
+    # (`~(x <= y)` rewritten to another comparison, `a - (b - c)` flattened) must still mean what Python says
+    import itertools as _it
+
+    x_, y_, p_, q_ = world.leaf("i", "x"), world.leaf("i", "y"), world.leaf("b", "p"), world.leaf("b", "q")
+    bool_compounds = []
+    for nm_, f_ in (("__le__", lambda a, b: a <= b), ("__lt__", lambda a, b: a < b), ("__ge__", lambda a, b: a >= b),
+                    ("__gt__", lambda a, b: a > b), ("__eq__", lambda a, b: a == b), ("__ne__", lambda a, b: a != b)):
+        bool_compounds.append((f"x {nm_} y", lambda nm_=nm_: world.call(mod, f"IntExpr.{nm_}", y_, self_obj=x_), lambda v, f_=f_: f_(v["x"], v["y"])))
+    for nm_, f_ in (("__and__", lambda a, b: a and b), ("__or__", lambda a, b: a or b), ("__xor__", lambda a, b: a != b), ("__eq__", lambda a, b: a == b)):
+        bool_compounds.append((f"p {nm_} q", lambda nm_=nm_: world.call(mod, f"BoolExpr.{nm_}", q_, self_obj=p_), lambda v, f_=f_: f_(v["p"], v["q"])))
+    bool_compounds.append(("~p", lambda: world.call(mod, "BoolExpr.__invert__", self_obj=p_), lambda v: not v["p"]))
+    cvals_b = [dict(x=a, y=b, p=c, q=d, o=e_) for a, b in _it.product(EM.INT_GRID, repeat=2) for c, d, e_ in _it.product((False, True), repeat=3)]
+    for clabel, cbuild, cmean in bool_compounds:
+        kind_c, ctree = _run(world, cbuild)
+        if kind_c != "value" or not isinstance(ctree, Obj):
+            continue  # reported by the (leaf, leaf) case of that operator
+        for name, (ar, f) in BOOL_DUNDERS.items():
+            q = f"BoolExpr.{name}"
+            if not mod.has_func(q):
+                continue
+            if ar == 0:
+                judge(q, f"({clabel})", lambda q=q, ctree=ctree: world.call(mod, q, self_obj=ctree), cvals_b, lambda v, f=f, cmean=cmean: f(cmean(v)))
+            elif name in ("__and__", "__or__", "__eq__", "__ne__"):
+                ob = world.leaf("b", "o")
+                judge(q, f"({clabel}, leaf)", lambda q=q, ctree=ctree, ob=ob: world.call(mod, q, ob, self_obj=ctree), cvals_b,
+                      lambda v, f=f, cmean=cmean: f(cmean(v), v["o"]))
+                judge(q, f"(leaf, {clabel})", lambda q=q, ctree=ctree, ob=ob: world.call(mod, q, ctree, self_obj=ob), cvals_b,
+                      lambda v, f=f, cmean=cmean: f(v["o"], cmean(v)))
+    int_compounds = [("x - y", lambda: world.call(mod, "IntExpr.__sub__", y_, self_obj=x_), lambda v: Lin.of(v["x"]) - v["y"]),
+                     ("x + y", lambda: world.call(mod, "IntExpr.__add__", y_, self_obj=x_), lambda v: Lin.of(v["x"]) + v["y"]),
+                     ("-x", lambda: world.call(mod, "IntExpr.__neg__", self_obj=x_), lambda v: Lin.of(0) - v["x"])]
+    ivals = [{n: Lin.sym(n) for n in ("x", "y", "o")}]
+    for clabel, cbuild, cmean in int_compounds:
+        kind_c, ctree = _run(world, cbuild)
+        if kind_c != "value" or not isinstance(ctree, Obj):
+            continue
+        oi = world.leaf("i", "o")
+        for name in ("__neg__", "__add__", "__radd__", "__sub__", "__rsub__"):
+            ar, _res, f = INT_DUNDERS[name]
+            q = f"IntExpr.{name}"
+            if not mod.has_func(q):
+                continue
+            if ar == 0:
+                judge(q, f"({clabel})", lambda q=q, ctree=ctree: world.call(mod, q, self_obj=ctree), ivals, lambda v, f=f, cmean=cmean: f(cmean(v)))
+            else:
+                judge(q, f"({clabel}, leaf)", lambda q=q, ctree=ctree, oi=oi: world.call(mod, q, oi, self_obj=ctree), ivals,
+                      lambda v, f=f, cmean=cmean: f(cmean(v), v["o"]))
+                judge(q, f"(leaf, {clabel})", lambda q=q, ctree=ctree, oi=oi: world.call(mod, q, ctree, self_obj=oi), ivals,
+                      lambda v, f=f, cmean=cmean: f(v["o"], cmean(v)))
     # then / cond (methods and module functions)
     s, o = world.leaf("b", "s"), world.leaf("b", "o")
     t, e = world.leaf("i", "t"), world.leaf("i", "e")
